@@ -542,13 +542,121 @@ fn case_group_fault(out: &mut CaseOut, seed: u64, idx: u64) {
     out.sample = Some(ctx);
 }
 
+/// A write fails while a manual compaction is in the middle of its merge (the compaction thread is
+/// parked at compact.step with the database mutex released): the failed write puts the database
+/// into its error state and wakes the thread that asked for the compaction, which gives up and
+/// returns. The compaction thread must survive that, and the database must still close and reopen
+/// with everything that was acknowledged.
+fn case_fault_during_manual_compaction(out: &mut CaseOut, seed: u64, idx: u64) {
+    use crate::director::{set_role, COMPACTOR};
+    use std::time::Duration;
+    let mut rng = Rng::new(mix(&[seed, idx], "c08-manual"));
+    let d = director();
+    d.reset(rng.next_u64());
+    let cfg = Config { memtable: 64 * 1024, file: *rng.pick(&[1024u64, 4096]), block: 256, reuse: rng.chance(0.5) };
+    let fs = SimFs::from_image(&dbutil::root_image());
+    let mut sess = Session::new(fs.clone(), cfg);
+    sess.fill_cache = false;
+    if let Err(e) = sess.open() {
+        out.violate("C08/open-failed-without-any-fault-fired", json!({"error": e}));
+        return;
+    }
+    let pool = gen::key_pool(&mut rng, KeyFamily::Ascii, 60);
+    let mut counter = 0u64;
+    // two generations of every key, each compacted down: the next whole-range compaction merges
+    for _ in 0..2 {
+        for k in &pool {
+            counter += 1;
+            if sess.put(k, &gen::tagged_value(&mut rng, &format!("v{counter}:"), 50)).is_err() {
+                out.inconclusive("degenerate: load refused");
+                return;
+            }
+        }
+        sess.compact(None, None);
+    }
+    for k in pool.iter().step_by(2) {
+        counter += 1;
+        let _ = sess.put(k, &gen::tagged_value(&mut rng, &format!("v{counter}:"), 50));
+    }
+    sess.wait_quiescent(Duration::from_secs(10));
+    let kind = if idx % 2 == 0 { OpKind::Write } else { OpKind::Flush };
+    let ctx = json!({"family": "fault-during-manual-compaction", "config": cfg.describe(), "fault": {"call": kind.name(), "on": "wal", "mode": "transient"}});
+    let gate = d.arm(COMPACTOR, "compact.step", rng.range(2, 12));
+    let db = sess.db_arc();
+    let requester = std::thread::Builder::new().name("c08-compactor-client".into()).spawn(move || {
+        set_role(2);
+        let _g = watch::enter("compact_range(whole range)");
+        db.compact_range(None..None);
+        drop(db);
+    }).unwrap();
+    let parked = d.wait_arrived(gate, Duration::from_secs(10)) && sess.db().verif_probe().manual_compaction_pending;
+    let mut failed_write = false;
+    if parked {
+        fs.arm_fault(Some(Fault { kind, class: PathClass::Wal, nth: 0, mode: FaultMode::Transient, after_effect: false }));
+        failed_write = sess.put(b"zz-faulted-write", b"never-acknowledged-value").is_err();
+        fs.arm_fault(None);
+    }
+    // the requester has been woken by the error state; give it a moment to withdraw its request
+    std::thread::sleep(Duration::from_millis(rng.range(5, 40)));
+    let withdrawn = !sess.db().verif_probe().manual_compaction_pending;
+    d.release(gate);
+    let _ = requester.join();
+    out.add("manual_compaction_fault_runs", 1);
+    // every acknowledged write is still readable; close and reopen work
+    let mut probes = vec![];
+    for k in &pool {
+        probes.push((k.clone(), sess.model.get(k).cloned()));
+    }
+    for (k, expected) in &probes {
+        match sess.get(k) {
+            Ok(got) if got == *expected => {}
+            Ok(got) => {
+                out.violate("C08/fault-during-manual-compaction/ok-write-not-visible", json!({"ctx": ctx, "key": show(k), "got": got.as_ref().map(|v| show(v))}));
+                break;
+            }
+            Err(_) => {}
+        }
+    }
+    sess.close();
+    match sess.open() {
+        Err(e) => out.violate("C08/open-failed-after-fault-removed", json!({"ctx": ctx, "error": e, "files": fs.image().listing()})),
+        Ok(()) => {
+            for (k, expected) in &probes {
+                match sess.get(k) {
+                    Ok(got) if got == *expected => {}
+                    Ok(got) => {
+                        out.violate("C08/after-reopen/ok-write-lost", json!({"ctx": ctx, "key": show(k), "got": got.as_ref().map(|v| show(v))}));
+                        break;
+                    }
+                    Err(e) => {
+                        out.violate("C08/read-error-after-fault-removed-and-reopen", json!({"ctx": ctx, "key": show(k), "error": e}));
+                        break;
+                    }
+                }
+            }
+            sess.close();
+        }
+    }
+    if parked && failed_write {
+        out.nontrivial(format!("manual-compaction-fault/{}/request-withdrawn{}", kind.name(), withdrawn as u8));
+    } else {
+        out.add("fault_not_reached", 1);
+    }
+    out.sample = Some(json!({"family": "fault-during-manual-compaction", "ctx": ctx, "worker_parked_mid_merge": parked, "write_failed": failed_write, "request_withdrawn_while_parked": withdrawn}));
+}
+
 const GROUP_EVERY: u64 = 20;
 
 pub fn run_case(tier: &str, seed: u64, idx: u64) -> CaseOut {
     let mut out = CaseOut::new();
     // every 20th case is a group commit under a failing write-ahead log
     if idx % GROUP_EVERY == GROUP_EVERY - 1 {
-        case_group_fault(&mut out, seed, idx / GROUP_EVERY);
+        let j = idx / GROUP_EVERY;
+        if j % 3 == 2 {
+            case_fault_during_manual_compaction(&mut out, seed, j / 3);
+        } else {
+            case_group_fault(&mut out, seed, j);
+        }
         return out;
     }
     let idx = idx - idx / GROUP_EVERY;
